@@ -190,13 +190,14 @@ func genRAOrder(t *rapid.T) Case {
 }
 
 func gen(t *rapid.T) Case {
+	// (rapid favours small values: the larger share goes to the lower range)
 	switch k := rapid.IntRange(0, 99).Draw(t, "layer"); {
-	case k < 2:
+	case k < 50:
+		return genL2(t)
+	case k < 53:
 		return genRAOrder(t)
-	case k < 45:
-		return genL1(t)
 	}
-	return genL2(t)
+	return genL1(t)
 }
 
 // ---------------------------------------------------------------------------
